@@ -11,6 +11,11 @@ CHECKS = {
    note='Bytes outside the alphabet are assumed to behave like "a" (one 8-bit symbol added in thorough); max_size=None (size limit is C09). "Randomly beyond the bound" is not done (sampling is outside this family).',
    technique='explicit-state exploration of the real DataReader over all inputs up to a length bound and all segmentations',
    design='5/C05'),
+ 'C17': dict(level='exploration', engine='E2-seq',
+   text='Real Reply.send/IO.send_reply output parsed back by the real IO.recv_reply/Reply.recv under ALL segmentations (continuation-merged search, differentially validated) for every code 200..599, every text over an 8-unit alphabet up to 4/5 units, every sequence of up to 3 pipelined replies (exact consumption); plus every malformed byte string over an 8-symbol alphabet up to 5/6 bytes against a strict three-valued reference parser.',
+   note='Continuation canonicaliser validated differentially (not proved); text symbols outside the alphabet assumed to behave like "a"; codes outside 1xx-5xx and bare "250<CRLF>" are undefined by the property and accepted either way.',
+   technique='exhaustive enumeration of replies/malformed inputs x all segmentations (continuation-merged re-execution) against a reference parser',
+   design='5/C17'),
 }
 
 def main():
